@@ -167,6 +167,19 @@ type world struct {
 	cas    []*caEnt
 	chains []*chainEnt
 	asKeys map[string][]*keyEnt
+	// shareKeys: some chains certify a key of AS 1-ff00:0:111 for the other AS (an operator using one
+	// key pair in two ASes); such a chain does not authenticate the key for 1-ff00:0:111.
+	shareKeys bool
+	sample    sample
+}
+
+// sample is the small description of a run kept in the evidence.
+type sample struct {
+	TRCs     []string `json:"trcs"`
+	CAs      int      `json:"cas"`
+	Chains   []string `json:"chains"`
+	Accepted int      `json:"accepted"`
+	Refused  int      `json:"refused"`
 	ias    []addr.IA
 }
 
@@ -505,7 +518,9 @@ func newWorld(r *core.Run, minTRCs int) *world {
 			names += x.name + " "
 		}
 		r.Logf("TRC S%d %s valid %v grace %dh arrival %dh roots %s", t.serial, t.kind, t.win, t.grace, t.arrival, names)
+		w.sample.TRCs = append(w.sample.TRCs, fmt.Sprintf("S%d %s valid %v grace %dh roots %s", t.serial, t.kind, t.win, t.grace, names))
 	}
+	r.Sample = &w.sample
 	return w
 }
 
